@@ -25,6 +25,19 @@ CHECKS = {
         note="Trusted: TLC's evaluation of SortedVec.tla; elements are integers (only Ord is used by the type).",
         design_ref="8/C20",
     ),
+    "C15": dict(
+        category="model_checking",
+        technique="TLA+ spec CompactCalendar.tla (abstract set + concrete year window, refinement mapping); TLC model checks all insertion sequences over a small universe and streams of calendars, every reachable state is replayed on the real type, recorded histories are validated",
+        text="MC_CompactCalendar explores every insertion sequence over a universe of 7 (quick) / 13 (thorough) dates in years -1..5 incl. "
+             "the leap day: the reachable set closes (2^7 / 2^13 states), so refinement (concrete window = abstract set), window "
+             "tightness (why derived equality is set equality), coded first_after = declarative strictly-next and newness hold for "
+             "histories of every length over that universe; MC_CalStream checks that several calendars in one stream are read back "
+             "exactly. Every reachable state is rebuilt on the real CompactCalendar in four insertion orders and every transition/query "
+             "(also outside the window), the round trip and 3-calendar streams are compared with TLC's values; seeded random histories "
+             "with years -262000..262000 are validated by Trace_CompactCalendar.",
+        note="Trusted: TLC's evaluation of CompactCalendar.tla; bytes are observed through lengths only.",
+        design_ref="8/C15",
+    ),
 }
 
 NOT_APPLICABLE = {}
